@@ -609,7 +609,9 @@ impl<S: WebSocket, T: TimestampProvider> Task<S, T> {
             buf: Bytes::new(),
             tx_msg_tx: self.tx_msg_tx.clone(), // cheap
             dropped_flows_tx: self.dropped_flows_tx.clone(), // cheap
-            rwnd_threshold: self.default_rwnd_threshold.min(peer_rwnd),
+            // The peer can have at most `self.rwnd` frames in flight, so a threshold above
+            // our own window would never be reached and the peer's writer would starve
+            rwnd_threshold: self.default_rwnd_threshold.min(peer_rwnd).min(self.rwnd),
         };
         (stream, stream_data)
     }
